@@ -11,8 +11,8 @@ import (
 
 func init() {
 	register(&core.Property{
-		ID:    "C13",
-		Title: "Rate limits hold: reloads and reconciliations keep min spacing, none is dropped",
+		ID:          "C13",
+		Title:       "Rate limits hold: reloads and reconciliations keep min spacing, none is dropped",
 		Explanation: "Static decision of the bookkeeping the spacing argument rests on: (1) every deadline a limiter's When() hands out is recorded in its `last` field on the path to that return (a deadline handed out but not recorded lets the next request be granted closer than the interval); (2) while a recorded deadline is still pending, When() returns the remaining time to that same deadline and does not move it (otherwise a burst pushes the deadline away and the notification is served late); (3) `last` is touched only under the limiter's mutex; (4) every enqueue on the reconcile and reload queues goes through the rate limiter, the only direct AddAfter is the failed-reload retry; (5) the worker pairs Get with Done and re-adds a failed item; (6) the limiters are built from the configured options.",
 		NotDecided: []string{
 			"wall-clock spacing of actual runs",
@@ -369,9 +369,15 @@ func c13Wiring(c *core.Ctx) {
 	if fn := c.Fn("utils/workqueue", "IngressReconcilerRateLimiter"); fn != nil {
 		d := fieldStores(fn, false, "ingressReconciler[T]", "delta")
 		w := fieldStores(fn, false, "ingressReconciler[T]", "wait")
-		okd := len(d) == 1 && strings.Contains(core.Key(d[0].Val), "/ rateLimitUpdate)") && strings.Contains(core.Key(d[0].Val), "1000000000")
+		// the division happens in floating point on one second expressed in nanoseconds, the conversion to Duration last
+		okd := len(d) == 1 && (core.Key(d[0].Val) == "(1e+09 / rateLimitUpdate)" || core.Key(d[0].Val) == "(1000000000 / rateLimitUpdate)")
 		okw := len(w) == 1 && core.Key(w[0].Val) == "waitBeforeUpdate"
-		c.Check(okd, "IngressReconcilerRateLimiter: delta", c.Pos(fn.Pos()), "delta = 1s / rate", "delta is not 1s/rateLimitUpdate")
+		c.Check(okd, "IngressReconcilerRateLimiter: delta", c.Pos(fn.Pos()), "delta = 1s / rate", "delta is `"+func() string {
+			if len(d) == 1 {
+				return core.Key(d[0].Val)
+			}
+			return "?"
+		}()+"`, not float64(time.Second)/rate converted last: truncating 1/rate to whole seconds makes the spacing 0 for rates above 1")
 		c.Check(okw, "IngressReconcilerRateLimiter: wait", c.Pos(fn.Pos()), "wait = waitBeforeUpdate", "wait is not initialised from the parameter")
 	}
 	// call sites pass the configured options
